@@ -178,6 +178,50 @@ pub fn run_headers(sim: &Sim, _idx: u64) {
     }
 }
 
+pub const CODE_GRID: u64 = 223 + 20 * 223;
+
+/// Every 1-byte grpc-status value and every 2-byte value with a digit in it (legal header bytes):
+/// only the canonical decimal codes 0..=16 may be read as a code, everything else is UNKNOWN.
+pub fn run_code_bytes(sim: &Sim, idx: u64) {
+    let legal: Vec<u8> = (0x20u8..=0x7e).chain(0x80..=0xff).collect(); // 223 bytes
+    let cell = if idx < CODE_GRID { idx } else { sim.draw(CODE_GRID) };
+    let val: Vec<u8> = if cell < 223 {
+        vec![legal[cell as usize]]
+    } else {
+        let c = cell - 223;
+        let (pos, digit, other) = ((c / 2230) as usize, ((c / 223) % 10) as u8, legal[(c % 223) as usize]);
+        if pos == 0 { vec![b'0' + digit, other] } else { vec![other, b'0' + digit] }
+    };
+    // HTTP field values carry no leading/trailing whitespace on a real wire, but a header map can
+    let text = String::from_utf8_lossy(&val).into_owned();
+    let canonical: Option<i32> = text.parse::<i32>().ok().filter(|c| (0..=16).contains(c) && c.to_string() == text);
+    let peer = PeerSvc::new(sim);
+    let mut script = PeerScript::ok_grpc();
+    let Ok(_) = http::HeaderValue::from_bytes(&val) else { return };
+    script.headers.push(("grpc-status".into(), val.clone()));
+    peer.push(script);
+    sim.nontrivial();
+    sim.sample(|| format!("grpc-status bytes {:02x?} ({text:?})", val));
+    let Some(out) = call(sim, &peer, true) else { return };
+    match (canonical, out) {
+        (Some(0), Outcome::Ok(_)) => {}
+        (Some(0), Outcome::Err(c, m, _, _)) => v4(sim, "ok-status-read-as-error", format!("grpc-status \"0\" read as {c:?} {m:?}")),
+        (Some(c), Outcome::Err(got, _, _, _)) => {
+            if got != Code::from_i32(c) {
+                v4(sim, "valid-status-misread", format!("grpc-status {text:?} read as {got:?}"));
+            }
+        }
+        (Some(c), Outcome::Ok(_)) => v4(sim, "non-ok-status-read-as-success", format!("grpc-status {c} read as success")),
+        (None, Outcome::Err(got, _, _, _)) => {
+            sim.probe("malformed-code-bytes");
+            if got != Code::Unknown {
+                v4(sim, "malformed-status-not-unknown", format!("grpc-status bytes {:02x?} ({text:?}) read as {got:?}", val));
+            }
+        }
+        (None, Outcome::Ok(_)) => v4(sim, "malformed-status-read-as-success", format!("grpc-status bytes {:02x?} ({text:?}) read as success", val)),
+    }
+}
+
 /// HTTP status without grpc-status.
 pub fn run_http_status(sim: &Sim, idx: u64) {
     // the first 500 runs enumerate 100..=599 completely
